@@ -625,60 +625,65 @@ Definition binders_of (l : list sx) : list ident :=
 
 (* every variable occurrence with the binders in scope (innermost first); core forms lambda, let,
    named let, internal define (scope: the rest of the body), quote *)
+(* scope a body form contributes to the forms after it (internal define) *)
+Definition def_scope (g : list ident) (x : sx) : list ident :=
+  match x with
+  | SL ((Id h _ | UId h _) :: nm :: _) _ =>
+      if mem h DEFINES then
+        match nm with
+        | SL (f :: _) _ => binders_of [f] ++ g
+        | _ => binders_of [nm] ++ g
+        end
+      else g
+  | _ => g
+  end.
+Definition occs_seq (oc : list ident -> sx -> list (ident * list ident)) : list ident -> list sx -> list (ident * list ident) :=
+  fix sq (g : list ident) (l : list sx) {struct l} : list (ident * list ident) :=
+    match l with
+    | [] => []
+    | x :: r => let g' := def_scope g x in oc g' x ++ sq g' r
+    end.
+Definition occs_inits (oc : list ident -> sx -> list (ident * list ident)) (g : list ident) : list sx -> list (ident * list ident) :=
+  fix ini (l : list sx) {struct l} : list (ident * list ident) :=
+    match l with
+    | [] => []
+    | SL (_ :: v :: _) _ :: r => oc g v ++ ini r
+    | _ :: r => ini r
+    end.
+Fixpoint let_names (l : list sx) : list sx :=
+  match l with
+  | [] => []
+  | SL (nm :: _) _ :: r => nm :: let_names r
+  | _ :: r => let_names r
+  end.
+
 Fixpoint occs (g : list ident) (e : sx) {struct e} : list (ident * list ident) :=
   match e with
   | SL xs imp =>
-      let seqf := fix sq (g : list ident) (l : list sx) {struct l} : list (ident * list ident) :=
-        match l with
-        | [] => []
-        | x :: r =>
-            let g' := match x with
-                      | SL ((Id h _ | UId h _) :: nm :: _) _ =>
-                          if mem h DEFINES then
-                            match nm with
-                            | SL (f :: _) _ => binders_of [f] ++ g
-                            | _ => binders_of [nm] ++ g
-                            end
-                          else g
-                      | _ => g
-                      end in
-            occs g' x ++ sq g' r
-        end in
-      let inits := fix ini (g : list ident) (l : list sx) {struct l} : list (ident * list ident) :=
-        match l with
-        | [] => []
-        | SL (_ :: v :: _) _ :: r => occs g v ++ ini g r
-        | _ :: r => ini g r
-        end in
-      let names := fix nms (l : list sx) {struct l} : list sx :=
-        match l with
-        | [] => []
-        | SL (nm :: _) _ :: r => nm :: nms r
-        | _ :: r => nms r
-        end in
       match xs with
       | (Id h _ | UId h _) :: args =>
           if String.eqb h "quote" then []
           else if mem h LAMBDAS then
             match args with
-            | SL ps _ :: body => seqf (binders_of ps ++ g) body
-            | p :: body => seqf (binders_of [p] ++ g) body
+            | SL ps _ :: body => occs_seq occs (binders_of ps ++ g) body
+            | p :: body => occs_seq occs (binders_of [p] ++ g) body
             | [] => []
             end
           else if mem h LETS then
             match args with
-            | SL prs _ :: body => inits g prs ++ seqf (binders_of (names prs) ++ g) body
-            | nm :: SL prs _ :: body => inits g prs ++ seqf (binders_of (names prs) ++ binders_of [nm] ++ g) body
+            | SL prs _ :: body => occs_inits occs g prs ++ occs_seq occs (binders_of (let_names prs) ++ g) body
+            | nm :: SL prs _ :: body =>
+                occs_inits occs g prs ++ occs_seq occs (binders_of (let_names prs) ++ binders_of [nm] ++ g) body
             | _ => []
             end
           else if mem h DEFINES then
             match args with
-            | SL (f :: ps) _ :: body => seqf (binders_of ps ++ g) body
-            | _ :: body => seqf g body
+            | SL (f :: ps) _ :: body => occs_seq occs (binders_of ps ++ g) body
+            | _ :: body => occs_seq occs g body
             | [] => []
             end
-          else seqf g xs
-      | _ => seqf g xs
+          else occs_seq occs g xs
+      | _ => occs_seq occs g xs
       end
   | _ => match ident_of e with Some v => [(v, g)] | None => [] end
   end.
@@ -777,3 +782,129 @@ Definition use_case (lits : list string) (ps : list pat) (tmpl : sx) (args : lis
     | OutOfFuel => "OUT-OF-FUEL"
     end
   else "NOMATCH".
+
+(* ------------------------------------------------------------------ specification side of matching *)
+(* The standard reading of "instantiate the pattern itself as a template": structural on the pattern, no
+   fuel, no quirks.  Used only in the statement of C13_match_sound_complete. *)
+Definition proj (j : nat) (vars : list string) (s : env) : env :=
+  map (fun x => (x, match lookup x s with Some (SL l _) => nth j l (Lit "") | _ => Lit "" end)) vars ++ s.
+
+Fixpoint seq_opt {A} (l : list (option A)) : option (list A) :=
+  match l with
+  | [] => Some []
+  | Some a :: r => match seq_opt r with Some r' => Some (a :: r') | None => None end
+  | None :: _ => None
+  end.
+
+(* items followed by an optional dotted tail; `( . t)` is t *)
+Definition combine_tail (items : list sx) (tl : option sx) : sx :=
+  match tl with
+  | None => SL items false
+  | Some (SL l imp') => SL (items ++ l) imp'
+  | Some t => match items with [] => t | _ => SL (items ++ [t]) true end
+  end.
+
+Definition pinst_go_gen (pi : pat -> env -> option sx) (s : env) : list pat -> option (list sx * option sx) :=
+  fix go (ps : list pat) {struct ps} : option (list sx * option sx) :=
+    match ps with
+    | [] => Some ([], None)
+    | p :: ps' =>
+        match p with
+        | PRest r => match pi r s with Some t => Some ([], Some t) | None => None end
+        | PMany q =>
+            match pvars q with
+            | [] => None
+            | x :: _ =>
+                match lookup x s with
+                | Some (SL l _) =>
+                    match seq_opt (map (fun j => pi q (proj j (pvars q) s)) (seq 0 (List.length l))), go ps' with
+                    | Some reps, Some (its, tl) => Some (reps ++ its, tl)
+                    | _, _ => None
+                    end
+                | _ => None
+                end
+            end
+        | _ => match pi p s, go ps' with
+               | Some e, Some (its, tl) => Some (e :: its, tl)
+               | _, _ => None
+               end
+        end
+    end.
+
+Fixpoint pinst (p : pat) (s : env) {struct p} : option sx :=
+  match p with
+  | PSingle v => lookup v s
+  | PSyntax x => Some (Id x 0)
+  | PLit l => Some (Lit l)
+  | PNested ps => match pinst_go_gen pinst s ps with
+                  | Some (its, tl) => Some (combine_tail its tl)
+                  | None => None
+                  end
+  | _ => None
+  end.
+
+(* the class of patterns covered: what MacroPattern::parse_from_list builds from a pattern whose dotted
+   tails are variables - at most one ellipsis per list level, the ellipsis sub-pattern binds at least one
+   variable, a dotted tail (Rest) is last and is a variable, no wildcard, pairwise distinct variables *)
+Definition okvar (v : string) : bool := negb (String.eqb v "_") && negb (String.eqb v ELL).
+Definition is_nil {A} (l : list A) : bool := match l with [] => true | _ => false end.
+
+Definition wf_items_gen (w : pat -> bool) : bool -> list pat -> bool :=
+  fix go (allow : bool) (ps : list pat) {struct ps} : bool :=
+    match ps with
+    | [] => true
+    | p :: ps' =>
+        match p with
+        | PRest r => match r, ps' with PSingle v, [] => okvar v | _, _ => false end
+        | PMany q => allow && w q && negb (is_nil (pvars q)) && go false ps'
+        | _ => w p && go allow ps'
+        end
+    end.
+
+Fixpoint wf1 (p : pat) : bool :=
+  match p with
+  | PSingle v => okvar v
+  | PSyntax s => negb (String.eqb s ELL)
+  | PLit _ => true
+  | PNested ps => wf_items_gen wf1 true ps
+  | _ => false
+  end.
+
+Fixpoint nodupb (l : list string) : bool :=
+  match l with [] => true | x :: r => negb (mem x r) && nodupb r end.
+
+Definition wf_pattern (ps : list pat) : bool :=
+  wf_items_gen wf1 true ps && nodupb (flat_map pvars ps).
+
+(* forms as the user writes them: origin 0, not flagged, no ellipsis token, dotted lists in reader normal
+   form (at least one element before the dot, the tail is an atom) *)
+Fixpoint plain (e : sx) : bool :=
+  match e with
+  | Id s o => Nat.eqb o 0 && negb (String.eqb s ELL)
+  | UId _ _ => false
+  | Lit _ => true
+  | SL xs imp =>
+      forallb plain xs &&
+      (negb imp || (Nat.leb 2 (List.length xs) &&
+                    match last_opt xs with Some (SL _ _) => false | _ => true end))
+  end.
+
+(* ellipsis depth of a variable in a pattern, and the shape of a binding of that depth *)
+Definition vdepth_items_gen (vd : pat -> nat) (x : string) : list pat -> nat :=
+  fix go (ps : list pat) {struct ps} : nat :=
+    match ps with
+    | [] => 0
+    | p :: ps' => if mem x (pvars p) then vd p else go ps'
+    end.
+Fixpoint vdepth (x : string) (p : pat) {struct p} : nat :=
+  match p with
+  | PMany q => S (vdepth x q)
+  | PRest q => vdepth x q
+  | PNested ps => vdepth_items_gen (vdepth x) x ps
+  | _ => 0
+  end.
+Fixpoint shape (d : nat) (v : sx) : Prop :=
+  match d with
+  | O => True
+  | S d' => exists l, v = SL l false /\ Forall (shape d') l
+  end.
